@@ -34,6 +34,15 @@ static void oracle_C14(const Case &c, vf::Stats &st) {
   }
   size_t eofs = 0; for (auto &t : got.toks) if (t.t == Theo::Token::T_EOF) eofs++;
   if (eofs != 1 || got.toks.empty() || got.toks.back().t != Theo::Token::T_EOF) { st.violation(key, "stream has " + std::to_string(eofs) + " end-of-file tokens / does not end with one", cj); return; }
+  // Which label the end-of-file token itself carries is left open, but it stands for the end of the stream: it repeats the
+  // label of the last token or names a line of the main file (where the stream ends) - not some other place
+  if (got.toks.size() >= 2 && want.exact_prefix < 0 && c.files.count(c.main)) {
+    const Theo::Token &e = got.toks.back(), &l = got.toks[got.toks.size() - 2];
+    long long mainlines = 1; for (char ch : c.files.at(c.main)) if (ch == '\n') mainlines++;
+    bool same_as_last = e.file == l.file && e.line == l.line, in_main = e.file == c.main && e.line >= 1 && e.line <= mainlines;
+    if (!same_as_last && !in_main) { st.violation(key, "the end-of-file token is labelled " + e.file + ":" + std::to_string(e.line) + ", which is neither the label of the last token (" + l.file + ":" + std::to_string(l.line) + ") nor a line of the main file", cj); return; }
+    st.add("eof_label_plausible");
+  }
   if (want.toks.size() > 1) st.nontrivial.insert(c.hash());
   uint64_t h = 0; for (auto &t : want.toks) h = vf::mix(h ^ (uint64_t)t.k * 31 ^ vf::fnv(t.text)); st.outcomes.insert(h);
   st.add("tokens_compared", (long long)n_exact);
@@ -82,6 +91,7 @@ static void enum_graphs(int nfiles, int maxslots_last, const CB &cb) {
     for (int s1 = 0; s1 < nt; s1++) {
       bool eof1 = targets[s1] == "include";
       out.push_back(m + "0\n" + targets[s1] + (eof1 ? "" : "\n" + m + "1"));
+      if (!eof1 && targets[s1] != "INCLUDE q") out.push_back(m + "0\n" + targets[s1]);  // the file ends with the directive
       if (maxslots < 2 || eof1) continue;
       for (int s2 = 0; s2 < nt; s2++) { bool eof2 = targets[s2] == "include"; out.push_back(m + "0\n" + targets[s1] + " " + m + "1\n" + targets[s2] + (eof2 ? "" : "\n" + m + "2")); }
     }
